@@ -2,6 +2,7 @@ package props
 
 import (
 	"fmt"
+	"reflect"
 
 	"github.com/free5gc/ike/message"
 	"github.com/free5gc/ike/security"
@@ -294,7 +295,53 @@ func c11(c *core.Ctx) {
 			}
 			k.Count("advertised_ok", 1)
 			k.Distinct("name|" + name + "|" + decFns[fi].name)
+			// the caller owns the transform it was handed: editing it (e.g. to build a variant proposal) must not
+			// change what the library hands out next time (checked by the second pass)
+			scribbleTransform(tr)
+			k.Count("returned_transform_edited_by_caller", 1)
 		}
+		for pass := 0; pass < 2; pass++ {
+			c11Names(k, chk)
+		}
+		for _, n := range []string{"", "ENCR_AES_CBC", "ENCR_AES_CBC_512", "AUTH_HMAC_SHA2_256", "PRF_HMAC_SHA2_512", "DH_1536_BIT_MODP", "ESN"} {
+			e1, e2, e3, e4, e5 := encr.StrToType(n), integ.StrToType(n), prf.StrToType(n), dh.StrToType(n), encr.StrToKType(n)
+			_, e6 := esn.StrToType(n)
+			if e1 != nil || e2 != nil || e3 != nil || e4 != nil || e5 != nil || e6 == nil {
+				k.Violate("mapping", "unknown-name-accepted", n, nil)
+			}
+		}
+	})
+	c11Proposals(c)
+}
+
+func scribbleTransform(t *message.Transform) {
+	if t == nil {
+		return
+	}
+	t.TransformType ^= 0xEE
+	t.TransformID ^= 0x5555
+	t.AttributePresent = !t.AttributePresent
+	t.AttributeFormat ^= 1
+	t.AttributeType ^= 0x2aaa
+	t.AttributeValue ^= 0x1234
+	t.VariableLengthAttributeValue = append(t.VariableLengthAttributeValue, 0xEE)
+}
+
+func scribbleProposal(p *message.Proposal) {
+	for _, l := range []message.TransformContainer{p.EncryptionAlgorithm, p.PseudorandomFunction, p.IntegrityAlgorithm, p.DiffieHellmanGroup, p.ExtendedSequenceNumbers} {
+		for _, t := range l {
+			scribbleTransform(t)
+		}
+	}
+	p.ProposalNumber ^= 0xEE
+	p.ProtocolID ^= 0xEE
+	for i := range p.SPI {
+		p.SPI[i] ^= 0xEE
+	}
+}
+
+func c11Names(k *core.Case, chk func(name string, tr *message.Transform, fi int, wantID uint16, wantKey, wantOut int)) {
+	{
 		for kl, n := range libsa.EncrNames {
 			if t := encr.StrToType(n); t != nil {
 				tr, _ := encr.ToTransform(t)
@@ -352,14 +399,10 @@ func c11(c *core.Ctx) {
 				k.Violate("mapping", "esn-flag-wrong/"+n, "", nil)
 			}
 		}
-		for _, n := range []string{"", "ENCR_AES_CBC", "ENCR_AES_CBC_512", "AUTH_HMAC_SHA2_256", "PRF_HMAC_SHA2_512", "DH_1536_BIT_MODP", "ESN"} {
-			e1, e2, e3, e4, e5 := encr.StrToType(n), integ.StrToType(n), prf.StrToType(n), dh.StrToType(n), encr.StrToKType(n)
-			_, e6 := esn.StrToType(n)
-			if e1 != nil || e2 != nil || e3 != nil || e4 != nil || e5 != nil || e6 == nil {
-				k.Violate("mapping", "unknown-name-accepted", n, nil)
-			}
-		}
-	})
+	}
+}
+
+func c11Proposals(c *core.Ctx) {
 	// single-choice proposals
 	c.Family("ike-proposals", 54, func(k *core.Case) {
 		e, i, p, d := k.Index%3, (k.Index/3)%3, (k.Index/9)%3, (k.Index/27)%2
@@ -403,6 +446,21 @@ func c11(c *core.Ctx) {
 			}
 			k.Count("ike_proposals_ok", 1)
 			k.Distinct(fmt.Sprintf("ikeprop|%d%d%d%d", e, i, p, d))
+			// the caller edits the proposal it was handed, then asks again (same SA object and a fresh one)
+			scribbleProposal(prop)
+			scribbleProposal(rp)
+			for which, s2 := range []*security.IKESAKey{src, newInfoKey(e, i, p, d)} {
+				p2, err := s2.ToProposal()
+				if err != nil {
+					k.Violate("error", "ToProposal-error-after-caller-edit", err.Error(), nil)
+					return
+				}
+				if a2 := bridge.ObserveProposal(p2); !reflect.DeepEqual(a2.Transforms, ap.Transforms) {
+					k.Violate("history", "proposal-depends-on-edits-to-an-earlier-returned-proposal", fmt.Sprintf("ToProposal (object %d) after the caller edited the proposal returned before", which), M{"first": ap, "second": a2})
+					return
+				}
+			}
+			k.Count("returned_proposal_edited_by_caller", 1)
 			// now break one transform at a time: SA construction must fail with an error and nil result
 			for slot := 0; slot < 4; slot++ {
 				for _, how := range []string{"id+1000", "id=0xffff", "keylen-attr"} {
@@ -490,6 +548,15 @@ func c11(c *core.Ctx) {
 			}
 			k.Count("child_proposals_ok", 1)
 			k.Distinct(fmt.Sprintf("childprop|%d%d%d%d", e, i, d, es))
+			scribbleProposal(prop)
+			if p2, err := src.ToProposal(); err != nil {
+				k.Violate("error", "child-ToProposal-error-after-caller-edit", err.Error(), nil)
+				return
+			} else if a2 := bridge.ObserveProposal(p2); !reflect.DeepEqual(a2.Transforms, ap.Transforms) {
+				k.Violate("history", "child-proposal-depends-on-edits-to-an-earlier-returned-proposal", "", M{"first": ap, "second": a2})
+				return
+			}
+			k.Count("returned_proposal_edited_by_caller", 1)
 			for _, tt := range []uint8{1, 3, 4, 5} {
 				bp := bridge.ObserveProposal(rp)
 				hit := false
@@ -515,7 +582,7 @@ func c11(c *core.Ctx) {
 			k.Violate("panic", "child-proposal: "+pn.Sig(), "panic", panicData(pn, nil))
 		}
 	})
-	c.Require("advertised_ok", "ike_proposals_ok", "child_proposals_ok", "unsupported_ike_proposal_refused", "unsupported_child_proposal_refused",
+	c.Require("returned_transform_edited_by_caller", "returned_proposal_edited_by_caller", "advertised_ok", "ike_proposals_ok", "child_proposals_ok", "unsupported_ike_proposal_refused", "unsupported_child_proposal_refused",
 		"supported_encr.DecodeTransform", "supported_encr.DecodeTransformChildSA", "supported_integ.DecodeTransform", "supported_integ.DecodeTransformChildSA",
 		"supported_prf.DecodeTransform", "supported_dh.DecodeTransform", "supported_esn.DecodeTransform")
 }
